@@ -11,6 +11,8 @@ structure WaitReady (s : State) (prio now t : Nat) (f : FileDesc) : Prop where
   find : findNext s prio now s.queue = some t
   obj : getF s.objs t = some f
   gate : wantsTick f = false → f.info.nextTs = none
+  /-- the source of the object does not fail (buffer source) -/
+  nofault : f.faults = []
 
 theorem findNext_congr {s s' : State} (prio now : Nat) (hm : s'.cfg.mode = s.cfg.mode) :
     ∀ l : List Nat, (∀ u ∈ l, getF s'.objs u = getF s.objs u) → findNext s' prio now l = findNext s prio now l := by
@@ -63,7 +65,7 @@ theorem WaitReady.done {s : State} {prio now t : Nat} {f : FileDesc} (h : WaitRe
     rw [transferDoneFile_objs, getF_updF s.objs k u (fun f => transferDoneInfo f now) (fun _ => rfl), if_neg (fun (e : u = k) => hk (e ▸ hu))]
   have hf0 : findNext (transferDoneFile s k now) prio now s.queue = some t := by
     rw [findNext_congr prio now (by rw [transferDoneFile_cfg]) s.queue hne]; exact h.find
-  refine ⟨?_, by rw [hne t htq]; exact h.obj, h.gate⟩
+  refine ⟨?_, by rw [hne t htq]; exact h.obj, h.gate, h.nofault⟩
   rcases transferDoneFile_queue_cases s k now with e | e
   · rw [e]; exact hf0
   · rw [e]; exact findNext_append _ _ hf0
@@ -104,6 +106,18 @@ theorem runFile_free (fuel : Nat) (s : State) (prio now : Nat) (ticks : List (Na
   unfold runFile
   simp only [hg]
   generalize autoPublish (fileStartStep s t now (tkGet ticks t)) now = s1 at hf1 ⊢
+  have hatt : f1.info.attempt = none := by
+    rw [hinfo]
+    show f.faults[f.info.total]? = none
+    rw [h.nofault]; rfl
+  have hopen : (startCur s1 t).openFail = false := by
+    unfold startCur
+    simp only [hf1, hatt]
+    rfl
+  have hof : openFailed true s1 (some (startCur s1 t)) = none := by
+    unfold openFailed
+    simp only [hopen, Bool.and_false, Bool.false_eq_true, if_false]
+  simp only [hof]
   split
   · rename_i hq
     refine Or.inr ⟨rfl, ?_⟩
@@ -111,7 +125,10 @@ theorem runFile_free (fuel : Nat) (s : State) (prio now : Nat) (ticks : List (Na
   · have hkey : (startCur s1 t).key = t := rfl
     simp only [hkey, hf1, hgate]
     obtain ⟨b, e, he⟩ := encRead_fresh f1.nSym (startCur s1 t).enc.closable (canStop f1 && !s1.files.contains t)
-    have henc : (startCur s1 t).enc = { sent := 0, stopped := false, closable := (startCur s1 t).enc.closable } := rfl
+    have henc : (startCur s1 t).enc = { sent := 0, stopped := false, closable := (startCur s1 t).enc.closable } := by
+      unfold startCur
+      simp only [hf1, hatt]
+      rfl
     rw [henc, he]
     exact Or.inl ⟨0, b, rfl⟩
 
@@ -125,7 +142,7 @@ theorem runFile_held_wait (fuel : Nat) (s : State) (prio now : Nat) (ticks : Lis
       (runFile (fuel + 2) s prio (some c) now ticks).1 = s ∧
       (runFile (fuel + 2) s prio (some c) now ticks).2.1 = some c) := by
   unfold runFile
-  simp only []
+  simp only [openFailed_false]
   split
   · rename_i hq
     refine Or.inr (Or.inl ⟨rfl, ?_⟩)
@@ -135,7 +152,8 @@ theorem runFile_held_wait (fuel : Nat) (s : State) (prio now : Nat) (ticks : Lis
     · split
       · exact Or.inr (Or.inr ⟨rfl, rfl, rfl⟩)
       · split
-        · rcases runFile_free fuel (transferDoneFile s c.key now) prio now ticks t f (h.done c.key hc) with ⟨i, b, e⟩ | e
+        · simp only [Bool.false_eq_true, if_false]
+          rcases runFile_free fuel (transferDoneFile s c.key now) prio now ticks t f (h.done c.key hc) with ⟨i, b, e⟩ | e
           · exact Or.inl ⟨t, i, b, e⟩
           · exact Or.inr (Or.inl e)
         · exact Or.inl ⟨c.key, _, _, rfl⟩
@@ -167,7 +185,7 @@ theorem runFile_finished_wait (fuel : Nat) (s : State) (prio now : Nat) (ticks :
           rw [← e]; omega
         rw [if_neg this]
   unfold runFile
-  simp only []
+  simp only [openFailed_false]
   split
   · rename_i hq
     refine Or.inr ⟨rfl, ?_⟩
@@ -178,7 +196,7 @@ theorem runFile_finished_wait (fuel : Nat) (s : State) (prio now : Nat) (ticks :
     obtain ⟨r1, r2⟩ := r
     simp only [] at he
     subst he
-    simp only []
+    simp only [Bool.false_eq_true, if_false]
     rcases runFile_free fuel (transferDoneFile s c.key now) prio now ticks t f (h.done c.key hc) with ⟨i, b, e⟩ | e
     · exact Or.inl ⟨t, i, b, e⟩
     · exact Or.inr e
